@@ -37,7 +37,7 @@ ASSUMPTIONS = [
 ]
 CASES = {'quick': 2200, 'thorough': 30000}
 TIME = {'quick': 66, 'thorough': 520}
-MIN_NONTRIVIAL = {'quick': 400, 'thorough': 800}
+MIN_NONTRIVIAL = {'quick': 300, 'thorough': 600}
 REQUIRED = ('probed_states', 'probe_triplets', 'refused_operations_checked',
             'accepted_operations_checked', 'explicit_index_checked',
             'warned_refusals_strict', 'post_hand_states_probed',
